@@ -44,7 +44,8 @@ CHECKS = {
     "C07": (True, "exploration", "property testing with an independent file-format reader (fsck) as invariant oracle after every quiescent step",
             "Random histories (all primaries, GC, reopen) during which an independent re-implementation of the on-disk formats checks every clause of the invariant after each Flush, completed GC cycle, reopen and "
             "Close: live table = own rescan = snapshot; bucket -> complete, non-deleted, correctly tagged record; entries sorted, prefix-free, distinct locations; entry -> complete, non-deleted primary record "
-            "with matching size, bucket bits and stored prefix; no live location on the freelist files; first-file numbers not beyond referenced files.",
+            "with matching size, bucket bits and stored prefix; no live location on the freelist files; first-file numbers not beyond referenced files. "
+            "A crash sub-campaign restores drawn crash images of recorded workloads, opens them and checks the same invariant on the recovered store.",
             BASE + " The fsck reader is written from the format description and shares no code with the repository; it is itself trusted.", "4 C07"),
     "C10": (True, "exploration", "property testing over generated legacy stores (own encoder of the legacy formats) + crash-point enumeration inside the conversion",
             "The harness writes version-2 single-file indexes, unversioned single-file primaries and freelists with its own encoder from generated map histories (superseded lists, pending/applied/lost freelist entries, optionally a cut primary so that "
@@ -55,7 +56,7 @@ CHECKS = {
             "Random histories followed by a generated kill phase (remove/overwrite every key in non-current primary files, rewrite every bucket referring into non-current index files, flush) and rounds of "
             "[primary GC, index GC, flush]; checked: a byte-identical fixed point is reached within a generous bound derived from the cycle structure, every fully dead primary file and every unreferenced index file "
             "is empty or gone there, no non-current file is still low-use by the threshold, StorageSize never grows inside a cycle and grows at the following flush by at most the outstanding (relocated) work. "
-            "Liveness is checked in this bounded form, which is what generated-input search can give.",
+            "A crash sub-campaign runs the same closure on stores recovered from crash images (orphan records, lost freelist entries). Liveness is checked in this bounded form, which is what generated-input search can give.",
             BASE + " Thresholds are fixed per case; threshold 0 (every file permanently low-use) is excluded from the fixed-point clause.", "4 C11"),
     "C03": (True, "fault_enumeration", "crash-point enumeration over generated workloads (named points capture every intermediate directory image; torn-write synthesis; durability-model oracle; post-recovery model-based history)",
             "Generated workloads (puts, overwrites, removals, flushes, iteration, GC cycles with and without unflushed data and budgets, close/reopen) run with a handler on ~140 named points that snapshots the directory before every file-system step; "
@@ -76,12 +77,13 @@ CHECKS = {
     "C12": (True, "exploration", "schedule exploration of the back-pressure protocol with the real flusher goroutine adopted by the cooperative scheduler; bounded-liveness closure judged by goroutine state",
             "Writers on a store with BurstRate(0) and a pinned flush rate always enter the waiting path; the scheduler interleaves them with the adopted flusher goroutine and explicit Flush tasks at the points measure / decide / register / signal / wait and inside Flush. "
             "After the generated schedule everything runs freely and three more Flush calls complete; a writer that is then still in the channel receive of the wait while the flusher idles in its select and no flush is in progress can never be released - that state, not elapsed time, is the verdict. "
-            "Liveness can only be checked in this bounded form by generated-input search.",
+            "A free-running sub-campaign (rounds of simultaneously released writers) reaches windows without a named point. Liveness can only be checked in this bounded form by generated-input search.",
             BASE + " Goroutine states are read from runtime.Stack. A run that does not reach a verdict state within 8 s is counted as inconclusive, never as a violation.", "4 C12"),
     "C13": (True, "exploration", "property testing with multiset accounting over histories; concurrent exploration of the freelist package with injected delays at named points",
             "Sequential histories: the multiset of locations that stop being current (overwrite, removal, GC relocation; observed through the public index lookup around every call) must equal the multiset of locations that reach GC "
             "(the .gc batch read at the named point just before it is dropped) plus what is left in .free/.free.gc after a final flush - each exactly once, nothing else, never a current location, and every delivered record is dead after its cycle. "
-            "Concurrent histories on the freelist alone: every Put is delivered exactly once across hand-overs and the final file while Flush/ToGC interleave.",
+            "Concurrent histories on the freelist alone: every Put is delivered exactly once across hand-overs and the final file while Flush/ToGC interleave. "
+            "Crash clause: entries that were in .free/.free.gc when the process died (crash images inside the hand-over) name dead records after recovery and two GC cycles.",
             BASE + " The concurrent part is free-running with generated delays at the hook points, so its schedules are explored, not enumerated.", "4 C13"),
     "C14": (True, "exploration", "small-scope exhaustive enumeration of call sequences + rapid random sequences + concurrent stress, against a handle model",
             "All call sequences (Open/Close/Remove/Clear/SetCacheSize over 2 names, capacities 0..2) to depth 5/6, random sequences to depth 60, and a concurrent stress run; after every call each lent handle must still be usable, "
